@@ -103,7 +103,9 @@ structure Entry where
   force : Bool
 deriving Repr, DecidableEq, Inhabited
 
-abbrev AppsCfg := List (String × Nat)
+/-- `config_data["apps"]`: app name ↦ its yaml entry; an EMPTY entry (`my_app:`) parses to `None` – the app is
+configured, its configuration value is `none` -/
+abbrev AppsCfg := List (String × Option Nat)
 
 def hasName (acc : List Entry) (n : Name) : Bool := acc.any (fun e => e.name == n)
 
@@ -119,7 +121,7 @@ def addFile (r : Row) (apps : AppsCfg) (acc : List Entry) (f : File) : List Entr
   else if r.checkConfig then
     match apps.lookup ((fqOf r.dir f.path).headD "") with
     | none => acc
-    | some c => acc ++ [mkEntry r f (some c)]
+    | some c => acc ++ [mkEntry r f c]
   else acc ++ [mkEntry r f none]
 
 /-- `glob_read_files(load_paths, apps_config)`; `files` is the directory listing in sorted path order -/
